@@ -153,6 +153,49 @@ def run(tier, seed):
         uu = np.asarray(symmetry.Umis(U1, U1, cs))[:, 1]
         if not np.all(np.isfinite(uu)) or not (uu.min() <= 1e-5):
             v.violation("Umis(U,U,%d) does not contain 0 (min %.3g deg)" % (cs, uu.min()), desc)
+    # misorientations of 1e-3 .. 1e-6 rad (sub-grain boundaries, the refinement noise of one grain): U2 = U1.d with d a Cayley rotation
+    # p/q, |p|/q = 5e-4 .. 5e-7 - too fine for 32-bit numerators, so the expected angles are evaluated in floating point from the
+    # exact operator tables of the model: angle_k of d.R_k', small angles through the antisymmetric part (no arccos near 1)
+    n_small = 0
+    for cs in range(1, 8):
+        R = rots_exact.get(cs)
+        if R is None:
+            continue
+        for trial in range(6 if tier == "quick" else 60):
+            U1 = cay([rng.randint(-5, 5) for _ in range(3)], rng.randint(1, 5))
+            qd = rng.choice([1000, 10000, 100000, 1000000])
+            pd = [rng.randint(-3, 3) for _ in range(3)]
+            if not any(pd):
+                pd = [1, 0, 0]
+            d = cay(pd, qd)
+            U2 = U1.dot(d)
+            desc = {"cs": cs, "small_rotation_rodrigues": [pd, qd]}
+            n_small += 1
+            v.case(("small", cs, trial), sample=desc if len(v.samples) < 12 and trial == 0 and cs in (1, 7) else None)
+            want = []
+            for k in range(len(R)):
+                M = d.dot(R[k].T)
+                co = (np.trace(M) - 1.0) / 2.0
+                si = 0.5 * math.sqrt((M[2, 1] - M[1, 2]) ** 2 + (M[0, 2] - M[2, 0]) ** 2 + (M[1, 0] - M[0, 1]) ** 2)
+                want.append(math.degrees(math.atan2(si, co)))
+            try:
+                m = np.asarray(symmetry.Umis(U1, U2, cs), dtype=float)
+            except Exception as ex:
+                v.violation("Umis raised %r on two proper rotations %.3g rad apart" % (ex, 2 * math.atan(math.sqrt(sum(x * x for x in pd)) / qd)), desc)
+                continue
+            got = m[:, 1] if m.ndim == 2 and m.shape[1] == 2 else np.array([])
+            if got.shape != (len(R),) or not np.all(np.isfinite(got)):
+                v.violation("Umis returned %s for two proper rotations a small angle apart" % (m.shape,), desc)
+                continue
+            for k in range(len(R)):
+                # arccos resolves an angle t to about delta/sin(t) rad (sqrt(delta) at exactly 0 or 180 degrees)
+                delta = 4e-15                       # rounding of the trace of a product of three float matrices
+                sn = abs(math.sin(math.radians(want[k])))
+                tol = 1e-9 + math.degrees(delta / max(sn, math.sqrt(delta)))
+                if abs(got[k] - want[k]) > tol:
+                    v.violation("Umis(U1, U1.d, %d)[%d] = %.9g deg; d is a rotation by %.9g deg and d.rot[%d]' one by %.9g deg" %
+                                (cs, k, got[k], want[0], k, want[k]), desc)
+                    break
     if v.violations:
         seen = {}
         for q in v.violations:
